@@ -305,4 +305,79 @@ Proof.
     apply (IH l1 ls1 (S h) l' K Hq1 Hstep Hh Hbs HI1 Hc1 Hus H).
 Qed.
 
+(* the same, started from one ledger and stated on accounts / delegate table / staked total *)
+Corollary block_refines_same l b l1 :
+  total_bal l + reward cfg (lb_height b) <= max_supply cfg ->
+  Forall (tx_side (lb_height b)) (lb_txs b) -> SInv l ->
+  ctr_ok l (txs_ctr (lb_txs b) + 4) ->
+  lb_height b - 1 + unlock_time cfg < two64 ->
+  apply_block cfg genesis_addr l b (lb_height b - 1) = Ok l1 ->
+  let '(c, ls) := spec_block cfg genesis_addr team_key l b in
+  c = 0 /\ same_accounts l1 ls /\ dlgs l1 = dlgs ls /\ staked l1 = staked ls.
+Proof.
+  intros Hb Hside HI Hc Hul H.
+  destruct (block_refines l l b l1 0 (leq_refl l) Hb Hside HI ltac:(rewrite N.add_0_r; exact Hc) Hul H) as (Hz & Hq & _).
+  destruct (spec_block cfg genesis_addr team_key l b) as [c ls]. cbn [fst snd] in Hz, Hq.
+  split; [exact Hz|]. split; [apply leq_same_accounts; exact Hq|]. destruct Hq as (_ & B & C). split; assumption.
+Qed.
+
+Corollary block_refused_by_rules_refused_by_code l b :
+  total_bal l + reward cfg (lb_height b) <= max_supply cfg ->
+  Forall (tx_side (lb_height b)) (lb_txs b) -> SInv l ->
+  ctr_ok l (txs_ctr (lb_txs b) + 4) ->
+  lb_height b - 1 + unlock_time cfg < two64 ->
+  fst (spec_block cfg genesis_addr team_key l b) <> 0 ->
+  forall l1, apply_block cfg genesis_addr l b (lb_height b - 1) <> Ok l1.
+Proof.
+  intros Hb Hside HI Hc Hul Hne l1 H.
+  destruct (block_refines l l b l1 0 (leq_refl l) Hb Hside HI ltac:(rewrite N.add_0_r; exact Hc) Hul H) as (Hz & _).
+  contradiction.
+Qed.
+
+Corollary chain_refines_same bs l (h : nat) l' :
+  total_bal l = sum_rewards cfg h -> heights_from h bs ->
+  Forall (fun b => Forall (tx_side (lb_height b)) (lb_txs b)) bs -> SInv l ->
+  ctr_ok l (chain_ctr bs) ->
+  Forall (fun b => lb_height b - 1 + unlock_time cfg < two64) bs ->
+  apply_chain cfg genesis_addr l bs = Ok l' ->
+  let '(c, ls) := ledger_of_chain cfg genesis_addr team_key l bs in
+  c = 0 /\ same_accounts l' ls /\ dlgs l' = dlgs ls /\ staked l' = staked ls.
+Proof.
+  intros Ht Hh Hside HI Hc Hul H.
+  destruct (chain_refines bs l l h l' 0 (leq_refl l) Ht Hh Hside HI ltac:(rewrite N.add_0_r; exact Hc) Hul H) as (Hz & Hq & _).
+  destruct (ledger_of_chain cfg genesis_addr team_key l bs) as [c ls]. cbn [fst snd] in Hz, Hq.
+  split; [exact Hz|]. split; [apply leq_same_accounts; exact Hq|]. destruct Hq as (_ & B & C). split; assumption.
+Qed.
+
+(* a whole chain from the empty ledger: genesis block (height 0) first, then heights 1, 2, ... - exactly what
+   Check/C02.v evaluates on the implementation's main chains *)
+Corollary chain_refines_from_genesis b0 bs l' :
+  lb_height b0 = 0 -> heights_from 0 bs ->
+  Forall (fun b => Forall (tx_side (lb_height b)) (lb_txs b)) (b0 :: bs) ->
+  chain_ctr (b0 :: bs) < two64 ->
+  Forall (fun b => lb_height b - 1 + unlock_time cfg < two64) (b0 :: bs) ->
+  apply_chain cfg genesis_addr ledger0 (b0 :: bs) = Ok l' ->
+  let '(c, ls) := ledger_of_chain cfg genesis_addr team_key ledger0 (b0 :: bs) in
+  c = 0 /\ same_accounts l' ls /\ dlgs l' = dlgs ls /\ staked l' = staked ls.
+Proof.
+  intros Hh0 Hh Hside Hc Hul H. cbn [apply_chain] in H. bind_inv H. rename a into l1.
+  inversion Hside as [|? ? Hb Hbs]; subst. inversion Hul as [|? ? Hu Hus]; subst.
+  assert (Hroom : total_bal ledger0 + reward cfg (lb_height b0) <= max_supply cfg).
+  { rewrite Hh0. change (total_bal ledger0) with 0. rewrite N.add_0_l.
+    change (reward cfg 0) with (sum_rewards cfg 0). apply (sum_rewards_le_max cfg Hem). }
+  assert (Htx : Forall (tx_ok cfg) (lb_txs b0)) by (eapply Forall_impl; [|exact Hb]; apply tx_side_ok).
+  assert (Hc0 : ctr_ok ledger0 (txs_ctr (lb_txs b0) + 4 + chain_ctr bs)).
+  { intros a. cbn [chain_ctr] in Hc. change (acct_at ledger0 a) with acct0. cbn [inc nonce acct0]. split; lia. }
+  destruct (block_refines ledger0 ledger0 b0 l1 (chain_ctr bs) (leq_refl _) Hroom Hb SInv0 Hc0 Hu E) as (Hz & Hq1 & Hc1).
+  assert (Hstep : total_bal l1 = sum_rewards cfg 0).
+  { rewrite (apply_block_total cfg genesis_addr Hem _ _ _ _ Hroom Htx E). rewrite Hh0. reflexivity. }
+  pose proof (apply_block_SInv cfg genesis_addr Hem _ _ _ _ Hroom Htx SInv0 E) as HI1.
+  cbn [ledger_of_chain].
+  destruct (spec_block cfg genesis_addr team_key ledger0 b0) as [c ls1] eqn:Esb. cbn [fst snd] in Hz, Hq1. subst c.
+  cbn [negb N.eqb].
+  destruct (chain_refines bs l1 ls1 0 l' 0 Hq1 Hstep Hh Hbs HI1 ltac:(rewrite N.add_0_r; exact Hc1) Hus H) as (Hz2 & Hq2 & _).
+  destruct (ledger_of_chain cfg genesis_addr team_key ls1 bs) as [c ls]. cbn [fst snd] in Hz2, Hq2.
+  split; [exact Hz2|]. split; [apply leq_same_accounts; exact Hq2|]. destruct Hq2 as (_ & B & C). split; assumption.
+Qed.
+
 End Blocks.
